@@ -38,7 +38,7 @@ RULE = ("one case = one operator (all its histories) or one function/prox call f
 ASSUMPTIONS = ["CPU/NumPy backend", "complex64 / real-dtype paths compared at 2e-5 (library runs them in single precision)",
                "an exception on a real-dtype input is tolerated (nothing silently lost)"]
 CHUNK = 4
-ALPHABET = ("a", "b", "r", "h", "n", "H")
+ALPHABET = ("a", "b", "r", "h", "n", "H", "c")   # c: apply a copy.deepcopy of the operator
 
 
 GLOBAL_STATE_ORACLE = True     # the runner also compares NumPy's error state, print options and the warnings filters before/after each case
@@ -194,6 +194,17 @@ def run_op(case, seed):
                 elif ev == "n":
                     out = A.N(live["xa"])
                     ok, e = _close(out, refs["n"], 1e-9)
+                elif ev == "c":
+                    import copy
+                    try:
+                        Bc = copy.deepcopy(A)
+                    except Exception:
+                        Bc = None       # an operator that cannot be copied says so loudly
+                    if Bc is None:
+                        ok, e = True, 0.0
+                    else:
+                        out = Bc(live["xa"])
+                        ok, e = _close(out, refs["a"], 1e-9)
                 else:
                     out = A.H.H(live["xa"])
                     ok, e = _close(out, refs["H"], 1e-9)
